@@ -97,7 +97,9 @@ Proof. vm_compute. reflexivity. Qed.
 
 (* F25: fn(int)->int and fn(bin)->int are answered disjoint although a function declared
    fn(int|bin)->int belongs to both; a partial on the self side never overlaps a tuple *)
-Lemma F25_callable_current : overlap_violation current_cfg reg_F25fn 3 4 (VFun 6) = true.
+Lemma F25_callable_as_found : overlap_violation f55_cfg reg_F25fn 3 4 (VFun 6) = true.
+Proof. vm_compute. reflexivity. Qed.
+Lemma F25_callable_repaired : types_overlap_with current_cfg 1000 reg_F25fn 3 4 = Some true.
 Proof. vm_compute. reflexivity. Qed.
 Definition v_F25p : value := VTup (Some 0) [(Some 0, VInt 0%Z)].
 Lemma F25p_as_found : overlap_violation fixed_cfg reg_F25partial 1 2 v_F25p = true.
@@ -139,7 +141,9 @@ Lemma F24_current : complement_violation current_cfg reg_F24 4 0 v_F24 = true.
 Proof. vm_compute. reflexivity. Qed.
 
 (* F25 through intersect_types: fn(int)->int /\ fn(bin)->int = never although fn(int|bin)->int is in both *)
-Lemma F25_intersect_current : intersect_violation current_cfg reg_F25fn 3 4 (VFun 6) = true.
+Lemma F25_intersect_as_found : intersect_violation f55_cfg reg_F25fn 3 4 (VFun 6) = true.
+Proof. vm_compute. reflexivity. Qed.
+Lemma F25_intersect_repaired : intersect_violation current_cfg reg_F25fn 3 4 (VFun 6) = false.
 Proof. vm_compute. reflexivity. Qed.
 
 (* filter_variants_by_field: parent = A[x: int|bin] | B[x: int]; after a test of field x against int
@@ -158,9 +162,9 @@ Definition filter_violation (cfg : rel_cfg) (by_overlap : bool) (P : registry) (
   | None => false
   end.
 
-Lemma filter_current : filter_violation current_cfg current_filter_by_overlap reg_filter 5 0 0 v_filter (VInt 0%Z) = true.
+Lemma F87_as_found : filter_violation current_cfg false reg_filter 5 0 0 v_filter (VInt 0%Z) = true.
 Proof. vm_compute. reflexivity. Qed.
-Lemma filter_proposed_repair : filter_violation current_cfg true reg_filter 5 0 0 v_filter (VInt 0%Z) = false
-  /\ match filter_variants_by_field current_cfg 1000 true reg_filter 5 0 0 with
+Lemma F87_repaired : filter_violation current_cfg current_filter_by_overlap reg_filter 5 0 0 v_filter (VInt 0%Z) = false
+  /\ match filter_variants_by_field current_cfg 1000 current_filter_by_overlap reg_filter 5 0 0 with
      | Some (P', r) => memb P' v_filter r | None => false end = true.
 Proof. vm_compute. split; reflexivity. Qed.
